@@ -231,10 +231,10 @@ REACH = ["C14.count==census(v1)", "C14.count==census(v1B)", "C14.count==census(v
 def jobs(tier, seed):
     from props.c01 import _shapes, flag_shards
     js = []
-    for name, shapes in _shapes(tier).items():
+    for name, (shapes, xo) in _shapes(tier).items():
         for fname, fopts in flag_shards(tier):
             js.append(Job("run.%s%s" % (name, fname), "props.c14:h_summary_run",
-                          {"shapes": shapes, "opts": fopts},
+                          {"shapes": shapes, "opts": dict(fopts, **xo)},
                           reach=REACH[:4], min_paths=5, cost=5000, validate=100 if tier == "quick" else 300))
     js.append(Job("run.untested-outline", "props.c14:h_summary_run",
                   {"shapes": [F([S(1), O(1, [(2, [])])]), F([O(1, [(1, [])]), S(1)])],
